@@ -35,6 +35,8 @@ def float_world(scen, seed):
                 U.base['dtbeta'] = arr([J.const(F, 0)] * 3)
             if scen == 'noshift':
                 U.drop_inputs('betaup3', 'dtbetaup3')
+            if scen == 'default':
+                U.drop_inputs('alpha', 'dtalpha')
             return F, U, Env(F)
         except NeedResample:
             continue
